@@ -22,6 +22,8 @@ import (
 	"github.com/vektah/gqlparser/v2/ast"
 	"github.com/wundergraph/graphql-go-tools/execution/graphql"
 	"github.com/wundergraph/graphql-go-tools/v2/pkg/astprinter"
+	"github.com/wundergraph/graphql-go-tools/v2/pkg/astvalidation"
+	"github.com/wundergraph/graphql-go-tools/v2/pkg/operationreport"
 
 	"verif/harness/internal/admit"
 	"verif/harness/internal/gqlast"
@@ -46,6 +48,8 @@ type Result struct {
 	Text      string   `json:"text"`
 	Vars      string   `json:"vars"`
 	RoundTrip string   `json:"roundtrip"` // "" = printed text re-parsed by gqlparser equals the case's document
+	Reused    string   `json:"reused"`    // verdict of ONE long-lived OperationValidator fed with every normalized document in turn: accept | reject | skip | panic:..
+	AfterOpts string   `json:"afteropts"` // verdict of ValidateForSchema() after ValidateForSchema(relaxed options) on the same request
 	Calib     []string `json:"calib"`     // rules gqlparser reports (only with -calib)
 	CalibErr  string   `json:"calib_err"`
 }
@@ -99,6 +103,49 @@ func loadCatalog(path string) map[string]*loaded {
 		out[s.ID] = l
 	}
 	return out
+}
+
+// reusedVerdict normalizes a fresh request and validates it with the long-lived validator (the verdict must not depend on
+// what that validator saw before: Go-side equality with the fresh verdict, no oracle needed).
+func reusedVerdict(v *astvalidation.OperationValidator, schema *graphql.Schema, opName, text, vars string) (out string) {
+	defer func() {
+		if r := recover(); r != nil {
+			out = fmt.Sprintf("panic:%v", r)
+		}
+	}()
+	req := graphql.Request{OperationName: opName, Variables: json.RawMessage(vars), Query: text}
+	nres, err := req.Normalize(schema, admit.EngineNormalizeOptions()...)
+	if err != nil || !nres.Successful {
+		return "skip"
+	}
+	var report operationreport.Report
+	v.Validate(req.Document(), schema.Document(), &report)
+	if report.HasErrors() {
+		return "reject"
+	}
+	return "accept"
+}
+
+// afterOptionsVerdict: ValidateForSchema with default options after a call with relaxed options on the same request.
+func afterOptionsVerdict(schema *graphql.Schema, opName, text, vars string) (out string) {
+	defer func() {
+		if r := recover(); r != nil {
+			out = fmt.Sprintf("panic:%v", r)
+		}
+	}()
+	req := graphql.Request{OperationName: opName, Variables: json.RawMessage(vars), Query: text}
+	nres, err := req.Normalize(schema, admit.EngineNormalizeOptions()...)
+	if err != nil || !nres.Successful {
+		return "skip"
+	}
+	if _, err := req.ValidateForSchema(schema, astvalidation.WithRelaxFieldSelectionMergingNullability(), astvalidation.WithAllowStringLiteralsForEnums()); err != nil {
+		return "skip"
+	}
+	vres, err := req.ValidateForSchema(schema)
+	if err != nil || !vres.Valid {
+		return "reject"
+	}
+	return "accept"
 }
 
 func main() {
@@ -157,6 +204,7 @@ func main() {
 	wtr := bufio.NewWriterSize(ftr, 1<<20)
 	defer wout.Flush()
 	defer wtr.Flush()
+	reused := astvalidation.DefaultOperationValidator()
 	sc := bufio.NewScanner(fin)
 	sc.Buffer(make([]byte, 1<<20), 1<<26)
 	for sc.Scan() {
@@ -192,6 +240,8 @@ func main() {
 		if o.Panic != "" {
 			res.Frames = admit.Frames(o.Stack, 2)
 		}
+		res.Reused = reusedVerdict(reused, l.schema, doc.OpName, res.Text, res.Vars)
+		res.AfterOpts = afterOptionsVerdict(l.schema, doc.OpName, res.Text, res.Vars)
 		if *calib {
 			rules, err := gqlast.Calibrate(l.gqlp, res.Text)
 			if err != nil {
